@@ -147,7 +147,7 @@ class Nullness:
             if (n["op"] == "&&" and v is False) or (n["op"] == "||" and v is True):
                 return False
             return self.scan(f, ch[1], d, out)
-        if k == "Conditional" and len(ch) >= 3:
+        if k == "Cond" and len(ch) >= 3:
             if self.scan(f, ch[0], d, out):
                 return True
             v = three(ch[0], d)
@@ -177,7 +177,7 @@ class Nullness:
         if k == "Unary" and n.get("op") == "&" and ch and strip(ch[0]) is not None and strip(ch[0])["k"] == "Member" and \
                 strip(ch[0]).get("arrow") and _is((strip(ch[0]).get("ch") or [None])[0], d):
             return False          # &d->m computes an address, no access
-        if k in ("Sizeof", "UnaryExprOrTypeTrait"):
+        if k in ("SizeOf", "Sizeof", "UnaryExprOrTypeTrait"):
             return False
         if k == "Call":
             from engines import call_args
